@@ -1,9 +1,21 @@
 (* C02: the system of publisher and environment threads, reachability under admissible steps,
    AppInv for every reachable configuration and for every admissible executable run. *)
-Require Import V.Base.MachineInt V.Generated.GenConsts V.Model.LogBase V.Model.Descriptor V.Proofs.DescriptorProofs
-               V.Model.Sched V.Model.AppenderThreads V.Proofs.TailArith V.Proofs.FragArith V.Proofs.AppenderInv
-               V.Proofs.AppenderLemmas V.Proofs.AppenderFrame V.Proofs.AppenderSteps V.Proofs.AppenderFaa
-               V.Proofs.AppenderRotate V.Proofs.AppenderSystem.
+Require Import V.Base.MachineInt.
+Require Import V.Generated.GenConsts.
+Require Import V.Model.LogBase.
+Require Import V.Model.Descriptor.
+Require Import V.Proofs.DescriptorProofs.
+Require Import V.Model.Sched.
+Require Import V.Model.AppenderThreads.
+Require Import V.Proofs.TailArith.
+Require Import V.Proofs.FragArith.
+Require Import V.Proofs.AppenderInv.
+Require Import V.Proofs.AppenderLemmas.
+Require Import V.Proofs.AppenderFrame.
+Require Import V.Proofs.AppenderSteps.
+Require Import V.Proofs.AppenderFaa.
+Require Import V.Proofs.AppenderRotate.
+Require Import V.Proofs.AppenderSystem.
 From Coq Require Import ZifyBool.
 Open Scope Z_scope.
 
